@@ -6,6 +6,7 @@
 -/
 import SplProofs.Lemmas.MetaList
 import SplProofs.C04
+import SplProofs.C10
 
 namespace C12
 open Resolution ExtraMeta Tlv Bytes
@@ -412,5 +413,113 @@ theorem C12_failed_unchanged (s : AState) (hw : AWf s) (t : Bytes) (h8 : t.lengt
         rw [h1] at hno; exact absurd rfl hno
       · obtain ⟨err, he⟩ := (hus.2 i e hf e1).1 (by omega)
         rw [he]; exact ⟨rfl, rfl⟩
+
+/-- On *every* account that opens — canonical or not (e.g. garbage behind a terminator) — `init` and
+    `update` never panic: each either succeeds, or returns an error and leaves the bytes bit-identical
+    (so a previously readable account stays readable). -/
+theorem C12_openable (d : Bytes) (ho : Tlv.unpack d = .ok ()) (t : Bytes) (h8 : t.length = 8)
+    (hne : t ≠ uninit) (ms : List Meta) (hm : ∀ m ∈ ms, m.cfg.length = 32) (hn : ms.length < 2 ^ 26) :
+    ((init d t ms).2 = .ok () ∨ ∃ e, init d t ms = (d, .err e)) ∧
+    ((update d t ms).2 = .ok () ∨ ∃ e, update d t ms = (d, .err e)) := by
+  have hsz := (sizeOf_small ms.length hn).1
+  have hnp := C04.C04_no_panic d ho t h8 hne (listLen ms.length) 0 false
+  constructor
+  · unfold init
+    rw [ho, hsz]
+    simp only
+    cases hal : alloc d t (listLen ms.length) false with
+    | mk d1 r =>
+      have hat := C04.C04_alloc_atomic d t (listLen ms.length) false
+      rw [hal] at hat
+      have hp := hnp.1
+      rw [hal] at hp
+      cases r with
+      | panic => exact absurd rfl hp
+      | err e =>
+        right
+        have hd : d1 = d := hat (by simp [Res.isErr])
+        exact ⟨e, by rw [hd]⟩
+      | ok p =>
+        obtain ⟨⟨lo, hi⟩, rep⟩ := p
+        left
+        have ⟨e1, e2⟩ := alloc_ok_range d t _ false d1 lo hi rep hal
+        have hsl : ((d1.drop lo).take (hi - lo)).length = 4 + 35 * ms.length := by
+          simp only [List.length_take, List.length_drop]; unfold listLen at e1; omega
+        obtain ⟨slot', w1, w2, _⟩ := writeList_spec _ ms hm hsl (by omega)
+        obtain ⟨d2, hw⟩ := writeAt_fits d1 lo slot' (by rw [w2, hsl]; unfold listLen at e1; omega)
+        simp only [w1, hw]
+  · unfold update
+    rw [ho, hsz]
+    simp only
+    cases hal : realloc d t (listLen ms.length) 0 with
+    | mk d1 r =>
+      have hat := C04.C04_realloc_atomic d t (listLen ms.length) 0
+      rw [hal] at hat
+      have hp := hnp.2
+      rw [hal] at hp
+      cases r with
+      | panic => exact absurd rfl hp
+      | err e =>
+        right
+        have hd : d1 = d := hat (by simp [Res.isErr])
+        exact ⟨e, by rw [hd]⟩
+      | ok p =>
+        obtain ⟨lo, hi⟩ := p
+        left
+        have ⟨e1, e2⟩ := realloc_ok_range d t _ 0 d1 lo hi hal
+        have hsl : ((d1.drop lo).take (hi - lo)).length = 4 + 35 * ms.length := by
+          simp only [List.length_take, List.length_drop]; unfold listLen at e1; omega
+        obtain ⟨slot', w1, w2, _⟩ := writeList_spec _ ms hm hsl (by omega)
+        obtain ⟨d2, hw⟩ := writeAt_fits d1 lo slot' (by rw [w2, hsl]; unfold listLen at e1; omega)
+        simp only [w1, hw]
+
+/-- Reading a list never panics — on every byte string. -/
+theorem C12_read_total (d t : Bytes) : readList d t ≠ .panic := by
+  unfold readList
+  have h1 := (C02.C02_total d t 0 0).1
+  have h2 := (C02.C02_total d t 0 0).2.2.1
+  cases hu : Tlv.unpack d with
+  | panic => exact absurd hu h1
+  | err e => simp
+  | ok u =>
+    simp only
+    cases hg : getBytes d t 0 with
+    | panic => exact absurd hg h2
+    | err e => simp
+    | ok p =>
+      obtain ⟨lo, hi⟩ := p
+      simp only
+      have h3 := (C10.C10_total LP wfLP 0 ((d.drop lo).take (hi - lo))).1
+      cases hl : ListView.unpack LP 0 ((d.drop lo).take (hi - lo)) with
+      | panic => exact absurd hl h3
+      | err e => simp
+      | ok v => simp
+
+/-! Non-vacuity: a concrete account with lists for two instructions (fixed-key configs).
+    -/
+def exK (b : UInt8) : Bytes := List.replicate 32 b
+def exT1 : Bytes := [1, 1, 1, 1, 1, 1, 1, 1]
+def exT2 : Bytes := [1, 1, 1, 1, 1, 1, 1, 2]
+def exCfgs : List Meta := [⟨0, exK 7, 1, 1⟩, ⟨0, exK 9, 0, 1⟩]
+def exStored : Bytes := (init (zeros 100) exT1 exCfgs).1
+def exStoredW : Bytes := (init (zeros 160) exT1 exCfgs).1
+def exStored3 : Bytes := (init exStoredW exT2 [⟨0, exK 4, 0, 0⟩]).1
+
+set_option maxRecDepth 20000 in
+/-- two instructions in one account; the first list (which sits *before* the second) is updated to a
+    shorter list; the second still reads the same; a second init of the first is rejected -/
+example : (init exStoredW exT2 [⟨0, exK 4, 0, 0⟩]).2 = .ok () ∧
+    (update exStored3 exT1 [⟨0, exK 5, 1, 0⟩]).2 = .ok () ∧
+    readList (update exStored3 exT1 [⟨0, exK 5, 1, 0⟩]).1 exT1 = .ok [⟨0, exK 5, 1, 0⟩] ∧
+    readList (update exStored3 exT1 [⟨0, exK 5, 1, 0⟩]).1 exT2 = .ok [⟨0, exK 4, 0, 0⟩] ∧
+    (init exStored3 exT1 []).2.isErr = true := by decide
+
+/-- the hypotheses `AWf s`, 8-byte non-zero tags and 32-byte configs are satisfiable together -/
+example : AWf ⟨[⟨exT1, zeros 74⟩, ⟨exT2, zeros 39⟩], 3⟩ ∧ exT1.length = 8 ∧ exT1 ≠ uninit ∧
+    (∀ m ∈ exCfgs, m.cfg.length = 32) := by
+  refine ⟨?_, by decide, by decide, by decide⟩
+  intro e he
+  simp at he
+  rcases he with rfl | rfl <;> refine ⟨by decide, by decide, ?_⟩ <;> simp
 
 end C12
